@@ -546,3 +546,55 @@ def texture_specs():
     out.append(Spec("pyrochlore-2in-2out", Af, gf, [list(pyro)], [[axes[0], axes[1], tuple(-x for x in axes[2]), tuple(-x for x in axes[3])]], fcc))
     out.append(Spec("pyrochlore-with-spectator", Af, gf, [list(pyro), [(h, h, h)]], [list(axes), [(0.0, 0.0, 0.0)]], fcc))
     return out
+
+
+def nonsymmorphic_specs(rng=None, nrandom=0):
+    """multi-chemistry crystals with NON-SYMMORPHIC operations in which one chemistry occupies a sublattice that is more symmetric
+    than the whole crystal (A on a centred sublattice {0, c}) and another one (B at u and c + m u, m a mirror / two-fold axis)
+    breaks the centring: for the screw / glide operations the first translation maptranslation() tries maps A but not B.
+    Every crystal is produced with the symmetric chemistry listed first AND last, with equal and unequal site counts."""
+    o, h, i = Fr(0), Fr(1, 2), Fr(1)
+    out = []
+    def add(label, Aq, chems):
+        A = np.array([[float(x) for x in r] for r in Aq]); g = fmat_mul(fmat_T(Aq), Aq)
+        out.append(Spec(label, A, g, [list(c) for c in chems], None, Aq))
+        out.append(Spec(label + "-reversed", A, g, [list(c) for c in chems[::-1]], None, Aq))
+    def fam(tag, Aq, c, m, u, extra=None):
+        d = len(Aq)
+        Asub = [tuple([o] * d), tuple(c)]
+        mu = lambda v: tuple(mod1(ck + mk * vk) for ck, mk, vk in zip(c, m, v))
+        B = [tuple(mod1(x) for x in u), mu(u)]
+        add(tag, Aq, [Asub, B])
+        if extra is not None:      # unequal site counts: a four-atom breaker, and a third single-atom chemistry on a special position
+            e = tuple(mod1(x) for x in extra)
+            me = tuple(mod1(-x) if k == 0 else x for k, x in enumerate(e))
+            B4 = [e, me, mu(e), mu(me)]
+            if len(set(B4)) == 4 and not (set(B4) & set(Asub)):
+                add(tag + "-4", Aq, [Asub, B4])
+                s3 = tuple([h] + [o] * (d - 1))
+                C2 = [s3, tuple(mod1(a + b) for a, b in zip(s3, c))]
+                if len(set(C2)) == 2 and not (set(C2) & (set(B4) | set(Asub))):
+                    add(tag + "-3chem", Aq, [Asub, C2, B4])
+    ortho = [[i, o, o], [o, Fr(6, 5), o], [o, o, Fr(3, 2)]]
+    tet = [[i, o, o], [o, i, o], [o, o, Fr(13, 10)]]
+    cub = [[i, o, o], [o, i, o], [o, o, i]]
+    rect = [[i, o], [o, Fr(13, 10)]]
+    sq = [[i, o], [o, i]]
+    fam("ns-ortho-I", ortho, (h, h, h), (1, 1, -1), (o, o, Fr(1, 5)), extra=(Fr(1, 8), o, Fr(1, 5)))
+    fam("ns-tet-I", tet, (h, h, h), (1, 1, -1), (o, o, Fr(3, 10)), extra=(Fr(1, 6), o, Fr(3, 10)))
+    fam("ns-cubic-I", cub, (h, h, h), (1, 1, -1), (o, o, Fr(1, 5)))
+    fam("ns-ortho-C", ortho, (h, h, o), (1, -1, 1), (o, Fr(1, 5), Fr(1, 3)), extra=(Fr(1, 8), Fr(1, 5), Fr(1, 3)))
+    fam("ns-ortho-a", ortho, (h, o, o), (1, -1, 1), (Fr(1, 8), Fr(1, 5), o))
+    fam("ns-rect-glide", rect, (h, h), (1, -1), (o, Fr(1, 5)), extra=(Fr(1, 8), Fr(1, 5)))
+    fam("ns-square-glide", sq, (h, h), (1, -1), (o, Fr(3, 10)))
+    for k in range(nrandom):
+        d = rng.choice([2, 3, 3])
+        Aq = rng.choice([rect, sq] if d == 2 else [ortho, tet, cub])
+        c = tuple(rng.choice([o, h]) for _ in range(d))
+        if not any(c): c = tuple([h] * d)
+        m = tuple(rng.choice([1, -1]) for _ in range(d))
+        if all(x == 1 for x in m): m = tuple([1] * (d - 1) + [-1])
+        u = tuple(rng.choice([o, o, Fr(1, 5), Fr(3, 10), Fr(1, 8), Fr(1, 3)]) for _ in range(d))
+        if u in (tuple([o] * d), c) or tuple(mod1(ck + mk * vk) for ck, mk, vk in zip(c, m, u)) in (u, tuple([o] * d), c): continue
+        fam("ns-rand%d" % k, Aq, c, m, u, extra=tuple(rng.choice([Fr(1, 8), Fr(1, 5), Fr(1, 3), Fr(1, 6)]) for _ in range(d)) if rng.random() < 0.5 else None)
+    return out
